@@ -111,16 +111,28 @@ class Watchdog:
         if self.proc is None or not self.proc.is_alive():
             self._start()
         self.conn.send((kind, data, opts))
-        if self.conn.poll(self.budget):
-            try:
-                return self.conn.recv()
-            except EOFError:
-                self.proc = None
-                return ("crash", "worker died", {}, 0.0)
+        # the budget is CPU time of the worker (so that a busy machine does not turn a prompt load into a timeout), with a wall-clock ceiling
+        cpu0, wall0 = self._cpu(), time.time()
+        while True:
+            if self.conn.poll(0.2):
+                try:
+                    return self.conn.recv()
+                except EOFError:
+                    self.proc = None
+                    return ("crash", "worker died", {}, 0.0)
+            if self._cpu() - cpu0 > self.budget or time.time() - wall0 > 6 * self.budget:
+                break
         self.proc.kill()
         self.proc.join()
         self.proc = None
         return ("timeout", f"> {self.budget}s", {}, self.budget)
+
+    def _cpu(self) -> float:
+        try:
+            f = open(f"/proc/{self.proc.pid}/stat").read().rsplit(")", 1)[1].split()
+            return (int(f[11]) + int(f[12])) / os.sysconf("SC_CLK_TCK")
+        except Exception:  # noqa: BLE001
+            return 0.0
 
     def close(self):
         import shutil
